@@ -1152,6 +1152,14 @@ def run_scope(prog, rep, P, taint, entry_shorts, tag="", audited=None, extra_sco
     for s in pending:
         key = s.key
         c = _cls(key) if "|" in key else None
+        if not (c in spare and spare[c]) and c is not None:
+            # the audited function is gone (a private helper inlined into its sibling): an unused audit of the same
+            # operation class on a vanished method of the same type stands for it
+            ty = c[0].split("::")[0]
+            for c2 in list(spare):
+                if c2[1] == c[1] and c2[0].split("::")[0] == ty and spare[c2] and not prog.has_body(c2[0]):
+                    spare.setdefault(c, []).append(spare[c2].pop(0))
+                    break
         if c in spare and spare[c]:
             k2 = spare[c].pop(0)
             used_audits.add(k2)
